@@ -23,8 +23,7 @@ def lvl_rank(order):
     return {n: i for i, n in enumerate(order)}
 
 
-def wave8_rules(ctx):
-    """obligations added after the eighth wave of seeded changes"""
+def parser_cond_rule(ctx):
     ob = ctx.ob
     tc = ctx.tc
     obs = []
@@ -54,6 +53,14 @@ def wave8_rules(ctx):
             if verdict and loops:
                 verdict, d = False, d + "; built in a loop: left-associative"
         obs.append(ob("C03.prec/parser/Cond", verdict, ctx.where(f), d, witness=None if verdict is not False else "a ? 1 : b ? 2 : 3 is read as (a ? 1 : b) ? 2 : 3"))
+    return obs
+
+
+def wave8_rules(ctx):
+    """obligations added after the eighth wave of seeded changes"""
+    ob = ctx.ob
+    tc = ctx.tc
+    obs = parser_cond_rule(ctx)
     # (2) string constants inside expressions go through the escaper table (shared with C12 / C02)
     from rules.c12 import find_escaper, check_escaper
     ef = find_escaper(tc)
